@@ -121,11 +121,14 @@ theorem reqPost_serves (a : AppId) (o : Obj) (ho : o.cls = .request) (d : Nat) (
   intro ret hret
   refine Prog.Serves.step _ _ (by simp only [Access.attrOk, ho]; exact req_attr_environ) fun _ => ?_
   refine Prog.Serves.step _ _ trivial fun _ => ?_
-  apply reqContentType_serves a o ho; intro _
-  apply reqBodyObj_serves a o ho; intro _
-  apply reqBodyObj_serves a o ho; intro _
-  apply reqContentLength_serves a o ho; intro _
-  exact Prog.Serves.step _ _ trivial fun _ => hret _
+  apply reqContentType_serves a o ho; intro ct
+  refine serves_ite ?_ ?_
+  · refine Prog.Serves.step _ _ trivial fun _ => ?_
+    exact reqBodyObj_serves a o ho _ _ fun _ => hret _
+  · apply reqBodyObj_serves a o ho; intro _
+    apply reqBodyObj_serves a o ho; intro _
+    apply reqContentLength_serves a o ho; intro _
+    exact Prog.Serves.step _ _ trivial fun _ => hret _
 
 theorem reqUrl_serves (a : AppId) (o : Obj) (ho : o.cls = .request) (d : Nat) (k : PVal → Prog)
     (hk : ∀ v, (k v).Serves a) : (reqUrl a o d k).Serves a := by
@@ -345,6 +348,14 @@ theorem hop_serves (nest : Req → Prog → Prog) (a : AppId) (cs : List Nat) (o
     apply reqBodyObj_serves a .request rfl; intro _
     exact Prog.Serves.step _ _ trivial fun _ => obsRead_serves a _ _ (hk _)
   | form f =>
+    simp only [hop]
+    apply cacheIn_serves a .request rfl
+    · intro ret hret
+      apply reqPost_serves a .request rfl; intro _
+      exact environGet_serves a .request rfl _ _ fun _ => hret _
+    · intro _
+      exact Prog.Serves.step _ _ trivial fun _ => obsRead_serves a _ _ (hk _)
+  | file name field =>
     simp only [hop]
     apply cacheIn_serves a .request rfl
     · intro ret hret
